@@ -296,6 +296,9 @@ func replayNative(ld *loaded, spec *Spec, hs HarnessSpec, v *Violation, path str
 		}
 		return false, fmt.Sprintf("native scenario %s passed (log %v)", fn, r.Log)
 	}
+	if strings.HasPrefix(r.Panic, "verif:") {
+		return false, "native replay diverged from the engine path: " + r.Panic
+	}
 	switch v.Kind {
 	case "panic":
 		return r.Panic != "", "native panic: " + r.Panic
